@@ -16,6 +16,10 @@ PROPERTY = 'C08'
 CLAIMS = {
     'C08.functions': 'accumulate = v+u, set = u, null = v, nonnegative_accumulate '
                      '= max(v+u, 0) for all integer v, u',
+    'C08.kernel': 'nonnegative_accumulate decided on an SMT encoding of its '
+                  'current source: for all doubles (inf, NaN, signed zeros, '
+                  'subnormals) the result is >= 0 or NaN; for all 62-bit '
+                  'integers it is max(v+u, 0)',
     'C08.merge': 'merge returns the merger of current and new: union of keys, new '
                  'wins on shared keys (recursively for dictionary values), '
                  'current is not modified',
@@ -47,9 +51,24 @@ BOUNDS = {'quick': 'values in [-9,9]; dictionaries over keys {a,b,c} with '
 OUTSIDE = 'arrays, quantities\' magnitude arithmetic (pint float code)'
 
 
+def part_kernel(ctx, cfg):
+    from . import kern
+    from vsym.core import HarnessError
+    r = kern.run_kernel(cfg['kernel'], cross=cfg.get('cross', False))
+    ctx.report('kernels', r['report'])
+    if r['answer'] in ('cannot-encode', 'undecided'):
+        raise HarnessError('kernel %s: %s %s' % (
+            cfg['kernel'], r['answer'], r['report'].get('reason', '')))
+    ctx.claim('C08.kernel', r['answer'] == 'holds',
+              sig='kernel:' + cfg['kernel'], info=lambda: r['cex'])
+
+
 def jobs(tier):
     q = tier == 'quick'
-    out = [dict(name='functions', part='functions', budget_s=60),
+    out = [dict(name='kernel-%s' % k, part='kernel', kernel=k, budget_s=300,
+                validate=0, cross=not q)
+           for k in ('nonneg_float', 'nonneg_int')]
+    out += [dict(name='functions', part='functions', budget_s=60),
            dict(name='merge', part='merge', nested=True, budget_s=100 if q
                 else 900, crosscheck=0 if q else 20),
            dict(name='dict_value', part='dict_value', budget_s=100),
